@@ -32,6 +32,7 @@ MARKER_PROPS = {
     "VF:string.forms.": ["C20"],
     "VF:columns.": ["C12", "C01", "C02"],
     "VF:columns.dense_indices": ["C12", "C20"],
+    "VF:columns.forms.": ["C20"],
     "VF:option.roundtrip": ["C01", "C02"],
     "VF:result.roundtrip": ["C01", "C02"],
     "VF:tuple.roundtrip": ["C01", "C02"],
